@@ -304,7 +304,7 @@ impl BrancherSpec {
             0..=4 => BrancherSpec::Builtin { var_sel: vs, val_sel: ls },
             5 | 6 => BrancherSpec::Default,
             7 => BrancherSpec::Alternating { strategy: rng.below(4) as u8, var_sel: vs, val_sel: ls },
-            8 => BrancherSpec::Dynamic { parts: rng.range(1, 3) as u8, var_sel: vs, val_sel: ls },
+            8 => BrancherSpec::Dynamic { parts: rng.range(2, 3) as u8, var_sel: vs, val_sel: ls },
             _ => BrancherSpec::Autonomous { var_sel: vs, val_sel: ls },
         }
     }
@@ -506,7 +506,18 @@ pub fn build_brancher(spec: &BrancherSpec, solver: &Solver, vars: &[DomainId], o
             for (i, (vs, os)) in vars.chunks(chunk).zip(occ.chunks(chunk)).enumerate() {
                 bs.push(Box::new(ivv((*var_sel + i as u8) % N_VAR_SEL, (*val_sel + i as u8) % N_VAL_SEL, vs, os, 7 + i as u64)));
             }
-            AnyBrancher::Dyn(DynamicBrancher::new(bs))
+            // the parts are either given to the constructor or appended one by one afterwards
+            // (the way the FlatZinc front-end appends the default brancher)
+            if val_sel % 2 == 0 && bs.len() >= 2 {
+                let mut rest = bs.split_off(1);
+                let mut d = DynamicBrancher::new(bs);
+                for b in rest.drain(..) {
+                    d.add_brancher(b);
+                }
+                AnyBrancher::Dyn(d)
+            } else {
+                AnyBrancher::Dyn(DynamicBrancher::new(bs))
+            }
         }
         BrancherSpec::Autonomous { var_sel, val_sel } => AnyBrancher::Auto(AutonomousSearch::new(ivv(*var_sel, *val_sel, vars, occ, 7))),
     }
